@@ -219,6 +219,32 @@ class C15(vlib.Driver):
                 for inp in ["numpy", "tensor"]:
                     cases.append({"kind": "norm", "space": {"t": "box", "shape": [1, 2, 2], "dtype": dt, "low": lo, "high": hi},
                                   "lead": lead, "input": inp, "pat": 2})
+        # ---- round 3: signed-integer image spaces whose range does not fit their dtype (int8 255, int16 40000, int32 4e9):
+        #      the range must be computed in floating point, never in the dtype of the Box
+        wide = [("int8", -128, 127), ("int16", -20000, 20000), ("int32", -2000000000, 2000000000)]
+        for (dt, lo, hi) in wide:
+            sp = {"t": "box", "shape": [1, 2, 2], "dtype": dt, "low": lo, "high": hi}
+            for lead in [[], [1], [2], [2, 3]]:
+                for inp in ["numpy", "tensor"]:
+                    add(sp, lead, inp, True, pat=1)
+                add(sp, lead, "numpy", False, pat=1)
+            add({"t": "box", "shape": [2, 1, 3], "dtype": dt, "low": lo, "high": hi}, [2], "numpy", True, pat=2)
+            for lead in [[], [2], [2, 3]]:
+                fields = [[0, sp], [1, leafs["d3"]], [2, leafs["v2"]]]
+                for order in ([0, 1, 2], [2, 1, 0]):
+                    cases.append({"kind": "prep", "space": {"t": "dict", "fields": fields}, "lead": lead, "input": "numpy",
+                                  "normalize": True, "order": order, "pat": 1})
+                cases.append({"kind": "prep", "space": {"t": "tuple", "members": [leafs["mb2"], sp]}, "lead": lead, "input": "numpy",
+                              "normalize": True, "pat": 1})
+            # the helper called directly: observation in the Box's own integer dtype, or as float32; numpy arrays and tensors
+            for lead in [[], [2]]:
+                for inp in ["numpy", "tensor"]:
+                    for od in ["space", "float32"]:
+                        cases.append({"kind": "norm", "space": sp, "lead": lead, "input": inp, "pat": 1, "obs_dtype": od})
+        for algo in ["DQN", "PPO"]:                      # through a real agent's preprocess_observation
+            for (dt, lo, hi) in wide[:2]:
+                cases.append({"kind": "prep", "algo": algo, "space": {"t": "box", "shape": [2, 6, 6], "dtype": dt, "low": lo, "high": hi},
+                              "lead": [2], "input": "numpy", "normalize": True, "pat": 1})
         # MultiBinary with several dimensions (pinned behaviour: batched as a rank-1 space; known finding)
         for dims in ([[2, 3], [1, 2]] + ([[2, 2, 2], [3, 1]] if thorough else [])):
             for lead in [[], [1], [2], [2, 3]]:
@@ -318,14 +344,19 @@ class C15(vlib.Driver):
             return out
         if case["kind"] == "norm":
             sp = case["space"]
-            arr = leaf_array(sp, lead, case["pat"]).astype(np.float64)
+            arr = leaf_array(sp, lead, case["pat"])
+            arr = (arr.astype(np.float32) if case.get("obs_dtype", "float32") == "float32" else arr).astype(np.float64)
             lo, hi = box_bounds(sp)
             want = arr
             if not (np.isinf(hi).any() or np.isinf(lo).any()) and not (np.all(hi == 1) and np.all(lo == 0)):
                 want = (arr - lo) / (hi - lo)
             got = np.asarray(obs["ok"]["data"]).reshape(obs["ok"]["shape"]) if "ok" in obs else None
             if got is None or got.shape != want.shape or not np.allclose(got, want, rtol=1e-6, atol=1e-7):
-                out.append(Violation("norm", "norm:direct", f"apply_image_normalization({case['input']}) wrong for bounds {sp['low']}..{sp['high']}: {obs}"[:400]))
+                sig = "norm:direct"
+                if sp["dtype"] in ("int8", "int16", "int32"):
+                    sig = f"norm:direct:{case['input']}:{'int' if case.get('obs_dtype') == 'space' else 'float'}-obs:range-in-space-dtype"
+                out.append(Violation("norm", sig, f"apply_image_normalization({case['input']}, observation dtype {case.get('obs_dtype', 'float32')}) wrong for "
+                                                  f"{sp['dtype']} bounds {sp['low']}..{sp['high']}: got {str(obs)[:200]}, expected first values {want.reshape(-1)[:4].tolist()}"[:500]))
             return out
         if case["kind"] == "prep_mbnd":
             B = int(np.prod(lead)) if lead else 1
@@ -497,7 +528,9 @@ def _run_small(case):
             return {"ok": tensor1(torch.as_tensor(out)), "type_kept": isinstance(out, type(x))}
         if case["kind"] == "norm":
             space = build_space(case["space"])
-            a = leaf_array(case["space"], case["lead"], case["pat"]).astype(np.float32)
+            a = leaf_array(case["space"], case["lead"], case["pat"])
+            if case.get("obs_dtype", "float32") == "float32":
+                a = a.astype(np.float32)
             x = a if case["input"] == "numpy" else torch.from_numpy(a)
             out = apply_image_normalization(x, space)
             return {"ok": tensor1(torch.as_tensor(np.asarray(out, dtype=np.float64) if isinstance(out, np.ndarray) else out))}
@@ -526,7 +559,11 @@ def _term_small(case, obs):
         if "err" in obs:
             return "false"
         sp = case["space"]
-        a = leaf_array(sp, case["lead"], case["pat"]).astype(np.float32)
+        a = leaf_array(sp, case["lead"], case["pat"])
+        if case.get("obs_dtype", "float32") == "float32":
+            a = a.astype(np.float32)
+        if sp["dtype"] in ("int8", "int16", "int32") and self_oracle_fails(case, obs):
+            return None      # integer wrap-around of the range (direct call only): reported by the oracle, not modelled
         lo, hi = box_bounds(sp)
         bounded = not (np.isinf(hi).any() or np.isinf(lo).any())
         los = "[" + "; ".join(coq_Q(x) for x in lo.reshape(-1)) + "]" if bounded else "[]"
@@ -534,6 +571,10 @@ def _term_small(case, obs):
         tol = TOL_NORM if uses_inexact_norm({"space": sp, "normalize": True}) or case["input"] == "numpy" else "0"
         return (f"check_norm {tol} {'true' if bounded else 'false'} {los} {his} {coq_tq(list(a.shape), a.reshape(-1).tolist())} "
                 f"{coq_tq(obs['ok']['shape'], obs['ok']['data'])}")
+
+
+def self_oracle_fails(case, obs):
+    return bool(C15().oracle(case, obs))
 
 
 def _nats(l):
